@@ -2812,6 +2812,8 @@ class SpecEval:
             return py_min(self.ev(n.args[0]), self.ev(n.args[1]))
         if name == "len":
             v = self.ev(n.args[0])
+            if not isinstance(v, V):
+                raise Unsupported(f"spec len() of a python-level value {v} (the code passes something the contract does not describe)")
             if isinstance(v.sort, SeqSort):
                 return vint(v.comps[0])
             if isinstance(v.sort, MapSort):
